@@ -52,9 +52,21 @@ CHECKS = {
                 "(a find started on a chain knows nothing about the model). Float terms are exercised on grid values only.",
         "technique": "Coq proof (induction over expression trees and hierarchy lists; refinement of a pruned pipeline to a Kleene filter) + differential correspondence",
     },
+    "C10": {
+        "text": "Each mutator is a total Gallina function mirroring one Rust method; theorems for every structure (hence any interleaving): removal by "
+                "predicate = filter of the flat traversal with the containers above untouched; removal / insertion by index = exactly that position or "
+                "refusal; by-identifier removal removes only the first match and reports existence; remove_empty leaves no empty container, loses no atom; "
+                "remove_models_except refuses exactly on empty structure / empty or out-of-range index list and otherwise keeps exactly the selected models "
+                "in order; joins append; atom setters leave a rejected atom untouched and never store a non-finite or invalid value. Tied to the crate by "
+                "random operation histories compared after every step (returned value and full snapshot).",
+        "design_ref": "DESIGN.md section 6 C10",
+        "note": "Trusted: Coq kernel, extraction, harness. The mirror of each Rust method is hand-written (sampled); Vec semantics (retain, remove, "
+                "insert, extend, drain) as documented; rayon position_first returns the least index.",
+        "technique": "Coq proof (frame + effect theorems per mutator, for all structures) + differential correspondence on operation histories",
+    },
 }
 
 NOT_APPLICABLE = [
     {"property_id": p, "reason": PENDING}
-    for p in ["C01", "C02", "C03", "C04", "C05", "C06", "C09", "C10", "C13", "C14", "C15", "C16", "C17", "C18"]
+    for p in ["C01", "C02", "C03", "C04", "C05", "C06", "C09", "C13", "C14", "C15", "C16", "C17", "C18"]
 ]
